@@ -1,16 +1,59 @@
 import GaleneVerif.Engine.Common
+import GaleneVerif.Model.SdpFrag
 /-
-Engine `fuzzmisc`: parsers without a Lean model (sdpfrag, pion's RTCP
-unmarshaller) run under recover() on structured and malformed inputs.  There
-is no model to compare with: the only verdict is the driver's generic rule
-that a recovered Go panic is a C12 violation.  This part of C12 is exploration,
-not proof, and the evidence says so.
+Engine `fuzzmisc`.
+
+* `sdpparse <hex>` / `sdplong <prefix> <fill> <count> <suffix>`: the real
+  `sdpfrag.SDPFrag.Unmarshal` (+ `UFragPwd`, `AllCandidates`, `Marshal`) against
+  Model/SdpFrag.lean; the whole parsed structure is compared.  `sdplong` builds
+  `prefix ++ fill^count ++ suffix` on both sides so that lines beyond bufio.Scanner's
+  64 KiB token limit can be exercised without megabyte trace lines.
+* `sdpfrag`, `rtcp`: parsers without a Lean model (sdpfrag's PatchSDP/FromSDP over pion's
+  sdp types, pion's RTCP unmarshaller) run under recover() on structured and malformed
+  inputs.  There is no model to compare with: the only verdict is the driver's generic
+  rule that a recovered Go panic is a C12 violation.  That part of C12 is exploration,
+  not proof, and the evidence says so.
 -/
 namespace Galene.Engine.FuzzMisc
 open Galene.Engine
+open Galene.Model.SdpFrag
 
-def step (st : Unit) (op _impl : List String) : Unit × Verdict :=
+/-- long fields are rendered as `#len:hash` -/
+def field (b : Bytes) : String :=
+  if b.length ≤ 64 then hex b else s!"#{b.length}:{hashBytes b}"
+
+def optField : Option Bytes → String
+  | none => "~"
+  | some b => field b
+
+def candTok (c : Cand) : String :=
+  s!"{field c.cand},{optField c.ufrag},{match c.idx with | none => "~" | some i => toString i},{optField c.mid}"
+
+def render (f : Frag) : String :=
+  let cs := f.cands.map candTok
+  let ms := f.medias.flatMap fun m =>
+    ["M", field m.mline, field m.mid, field m.ufrag, field m.pwd, toString m.cands.length] ++ m.cands.map candTok
+  let (u, p) := ufragPwd f
+  " ".intercalate (["ok", s!"u={field f.ufrag}", s!"p={field f.pwd}", s!"nc={f.cands.length}"] ++ cs
+    ++ [s!"nm={f.medias.length}"] ++ ms
+    ++ [s!"up={field u},{field p}", s!"all={(allCandidates f).length}", s!"ms={field (marshal f)}"])
+
+def parseRes (data : Bytes) : String :=
+  match unmarshal data with
+  | .ok f => render f
+  | .err => "err"
+  | .panic => "panic:model"
+
+def step (st : Unit) (op impl : List String) : Unit × Verdict :=
   match op with
+  | ["sdpparse", h] =>
+    match unhex h with
+    | some data => (st, cmp (parseRes data) impl)
+    | none => (st, .badop "bad hex")
+  | ["sdplong", pre, fill, count, suf] =>
+    match unhex pre, nat? fill, nat? count, unhex suf with
+    | some p, some f, some n, some s => (st, cmp (parseRes (p ++ List.replicate n f ++ s)) impl)
+    | _, _, _, _ => (st, .badop "bad sdplong")
   | ["sdpfrag", _] => (st, .ok)
   | ["rtcp", _] => (st, .ok)
   | _ => (st, .badop "unknown op")
